@@ -194,6 +194,7 @@ R.contract(
 
 R.contract(
     T4 + "_get_op_kind", "C03",
+    unreachable_ok=["if isinstance(op, dict)", "return str(op.get", "return ''"],   # ops are records with a .kind here
     types={"ops": "List[PlanOp]", "idx": "int"},
     returns="str",
     pure_result="ite(0 - len(ops) <= idx and idx < len(ops), ops[ite(idx < 0, idx + len(ops), idx)].kind, '')",
